@@ -122,7 +122,7 @@ def check(case):
 def heavy_box(draw, tier):
     """Boxes that stress the scratch arrays and the index clamping."""
     big = tier != "quick"
-    kind = draw(st.sampled_from(["alldifferent", "gcc", "element_iv", "element_lic", "element_liv", "no_sub_cycle", "scc", "relation", "any"]))
+    kind = draw(st.sampled_from(["alldifferent", "gcc", "gcc", "gcc", "element_iv", "element_lic", "element_liv", "no_sub_cycle", "scc", "relation", "any"]))
     if kind == "any":
         c = draw(gen.box_case(max_n=6, max_w=4))
     elif kind in ("alldifferent", "gcc"):
@@ -146,7 +146,14 @@ def heavy_box(draw, tier):
         if kind == "alldifferent":
             c = {"type": kind, "params": [], "box": box}
         else:
-            c = {"type": kind, "params": draw(gen.params_for("gcc", box)), "box": box}
+            params = draw(gen.params_for("gcc", box))
+            if draw(st.integers(0, 2)) == 0:
+                # a zero capacity exactly on a bound of the span of the domains (first / last value actually reachable)
+                m = (len(params) - 1) // 2
+                v = (max(b[1] for b in box) if draw(st.booleans()) else min(b[0] for b in box)) - params[0]
+                params[1 + v] = 0
+                params[1 + m + v] = 0
+            c = {"type": kind, "params": params, "box": box}
     elif kind == "element_iv":
         ln = draw(st.integers(1, 8))
         params = draw(st.lists(st.integers(-3, 4), min_size=ln, max_size=ln))
